@@ -78,6 +78,17 @@ where
     }
 }
 
+/// Raises the shared shutdown flag if the owning worker thread unwinds from a panic.
+struct ShutdownOnPanic(Arc<AtomicBool>);
+
+impl Drop for ShutdownOnPanic {
+    fn drop(&mut self) {
+        if std::thread::panicking() {
+            self.0.store(true, Ordering::Relaxed);
+        }
+    }
+}
+
 pub(crate) struct SimulationChecker<M: Model> {
     // Immutable state.
     model: Arc<M>,
@@ -149,6 +160,9 @@ where
                 std::thread::Builder::new()
                     .name(format!("checker-{}", t))
                     .spawn(move || {
+                        // If model code panics in this worker, the others must not keep running on
+                        // their own (they have no other way to notice).
+                        let _shutdown_on_panic = ShutdownOnPanic(Arc::clone(&shutdown));
                         let mut seed = thread_seed;
                         log::debug!("{}: Thread started with seed={}.", t, seed);
                         // FIXME: use a reproducible rng, one that will not change over versions.
